@@ -403,8 +403,11 @@ func synthUnary(n int) []byte {
 
 func (k c03Case) body() wireBody {
 	w := k.Body
-	if k.SynthLen > 0 {
+	if k.SynthLen > 0 && w.Kind == KUnary {
 		w.Body = synthUnary(k.SynthLen)
+	} else if k.SynthLen > 0 {
+		// streams: the stored body is the head; one more envelope of SynthLen bytes in all follows
+		w.Body = append(cloneBytes(w.Body), refwire.Envelope(0, synthUnary(k.SynthLen-5))...)
 	}
 	return w
 }
